@@ -146,7 +146,7 @@ func TestCheck(t *testing.T) {
 		return
 	}
 	// sliders: every square x every subset of the relevant mask x 64 noise patterns outside the mask
-	noise := r.N(256, 2048)
+	noise := r.N(256, 4096)
 	ev.Parallel(128, func(wk, i int) {
 		sq := i / 2
 		kind, ds := "rook", rookD
@@ -181,7 +181,7 @@ func TestCheck(t *testing.T) {
 		}
 	})
 	// random full-board occupancies
-	nr := r.N(20_000_000, 200_000_000)
+	nr := r.N(20_000_000, 1_000_000_000)
 	ev.Parallel(64, func(wk, i int) {
 		rng := r.RNG("c12-rand", i)
 		for k := 0; k < nr/64; k++ {
@@ -199,7 +199,7 @@ func TestCheck(t *testing.T) {
 	})
 	static(r)
 	// multi-pawn union law
-	np := r.N(2_000_000, 20_000_000)
+	np := r.N(2_000_000, 100_000_000)
 	ev.Parallel(16, func(wk, i int) {
 		rng := r.RNG("c12-pawns", i)
 		for k := 0; k < np/16; k++ {
